@@ -21,6 +21,9 @@ def main() -> int:
     ctx = Ctx(prop, job["tier"], job["seed"], job["shard"])
     t0 = time.time()
     try:
+        from vf.mon import clock
+
+        clock.install()
         env.import_han()
         env.rotate_environment(ctx, job["shard"].get("index", 0))
         mod = importlib.import_module(f"vf.props.{prop.lower()}")
